@@ -216,7 +216,7 @@ static void run_intrusive_dups(const std::vector<long long>& seq, const char* fa
 {
    auto& C = ctx();
    IChain a, b;
-   std::vector<INode*> nodes, rejected;
+   std::vector<INode*> nodes, rejected, linked_a;
    std::set<long long> in_a, in_b;
    Validator<INode, SignOf<ICmp>> val;
    Shape sh;
@@ -233,8 +233,22 @@ static void run_intrusive_dups(const std::vector<long long>& seq, const char* fa
       INode* z = new INode(k); nodes.push_back(z);
       const bool dup = !in_a.insert(k).second;
       a.insert(z, ICmp{});
-      if (dup) { rejected.push_back(z); C.count("intrusive_duplicates_offered"); }
+      if (dup) { rejected.push_back(z); C.count("intrusive_duplicates_offered"); } else linked_a.push_back(z);
       if (!(ok = check(a, in_a, "A", "after an insertion into A"))) break;
+   }
+   // a node that IS linked in the chain is offered to the same chain again (idempotent registration): the equal element found is
+   // that very node; the chain keeps its shape and every key stays reachable.  Root, interior nodes and leaves alike.
+   if (ok && !linked_a.empty()) {
+      val.validate(a.get_root(), (long long)in_a.size(), sh); const std::uint64_t before = sh.fp;
+      std::vector<INode*> again { a.get_root() };
+      for (std::size_t i = 0; i < linked_a.size() && again.size() < 12; i += 1 + linked_a.size() / 10) again.push_back(linked_a[i]);
+      for (INode* z : again) {
+         INode* got = a.insert(z, ICmp{});
+         C.count("linked_nodes_offered_again_to_their_own_chain");
+         if (got != z) { C.viol("intrusive-dups:relinked-node:insert-return", "offering a node to the chain it is already linked in does not return that node", J0()); ok = false; break; }
+         if (!(ok = check(a, in_a, "A", "after a node already linked in A was offered to A again"))) break;
+         if (sh.fp != before) { C.viol("intrusive-dups:relinked-node:shape-changed", "the shape of the chain changed when a node already linked in it was offered again", J0()); ok = false; break; }
+      }
    }
    if (ok && !rejected.empty()) {
       val.validate(a.get_root(), (long long)in_a.size(), sh); const std::uint64_t a_shape = sh.fp;
@@ -492,7 +506,7 @@ static void body(Ctx& C)
    C.assume("comparators supplied by the harness are total orders");
    C.assume("exhaustive only up to the stated bounds; longer sequences are sampled");
    for (int i = 0; i < 6; ++i) C.need(std::string("fixup_case_") + std::to_string(i));
-   C.need("wide_result_sequences"); C.need("intrusive_duplicates_offered"); C.need("rejected_nodes_offered_to_a_second_chain"); C.need("insertions_refused_by_the_element_constructor"); C.need("insertions_of_elements_with_a_list_constructor"); C.need("recycled_sole_members_inserted"); C.need("insertions_right_after_a_missed_lookup_through_the_same_object");
+   C.need("wide_result_sequences"); C.need("intrusive_duplicates_offered"); C.need("rejected_nodes_offered_to_a_second_chain"); C.need("insertions_refused_by_the_element_constructor"); C.need("insertions_of_elements_with_a_list_constructor"); C.need("recycled_sole_members_inserted"); C.need("linked_nodes_offered_again_to_their_own_chain"); C.need("insertions_right_after_a_missed_lookup_through_the_same_object");
 
    const int maxn = C.thorough ? 9 : 8;
    // -- all permutations of 1..n ------------------------------------------------------
